@@ -168,4 +168,82 @@ U_C10 == TLCEval(
      [modes |-> << Mode("A", << PatLa(A1, 1, PosLa(A2)), Pat(A2, 2), Pat(A3, 3) >>, << <<2, 1>> >>),
                    Mode("B", << Pat(Plus(A1), 5), PatLa(A2, 2, NegLa(A3)), Pat(A3, 3) >>, << <<3, 0>> >>) >>]
   >>)
+\* ---- C13: a base configuration, its one-field neighbours, and configurations that do not build ----
+Unsup(w) == [op |-> "unsup", what |-> w]
+SynErr == [op |-> "synerr"]
+C13ModeA(ps, tr, nm) == Mode(nm, ps, tr)
+C13BasePatsA == << Pat(A1, 1), Pat(Cat(A1, A2), 2), Pat(A2, 3) >>
+C13BasePatsB == << Pat(Plus(A1), 5), PatLa(A2, 3, NegLa(A3)), Pat(A3, 6) >>
+C13Cfg(pa, ta, na, pb, tb) == [modes |-> << Mode(na, pa, ta), Mode("B", pb, tb) >>]
+C13Base == C13Cfg(C13BasePatsA, << <<3, 1>> >>, "A", C13BasePatsB, << <<3, 0>> >>)
+U_C13 == TLCEval(<<
+  C13Base,
+  \* a token type changed
+  C13Cfg(<< Pat(A1, 4), Pat(Cat(A1, A2), 2), Pat(A2, 3) >>, << <<3, 1>> >>, "A", C13BasePatsB, << <<3, 0>> >>),
+  \* two patterns swapped (priority)
+  C13Cfg(<< Pat(A1, 1), Pat(A2, 3), Pat(Cat(A1, A2), 2) >>, << <<3, 1>> >>, "A", C13BasePatsB, << <<3, 0>> >>),
+  C13Cfg(C13BasePatsA, << <<3, 1>> >>, "A", << PatLa(A2, 3, NegLa(A3)), Pat(Plus(A1), 5), Pat(A3, 6) >>, << <<3, 0>> >>),
+  \* a lookahead added
+  C13Cfg(<< PatLa(A1, 1, PosLa(A2)), Pat(Cat(A1, A2), 2), Pat(A2, 3) >>, << <<3, 1>> >>, "A", C13BasePatsB, << <<3, 0>> >>),
+  \* its polarity flipped
+  C13Cfg(<< PatLa(A1, 1, NegLa(A2)), Pat(Cat(A1, A2), 2), Pat(A2, 3) >>, << <<3, 1>> >>, "A", C13BasePatsB, << <<3, 0>> >>),
+  \* a lookahead removed / its text changed / polarity flipped (mode B)
+  C13Cfg(C13BasePatsA, << <<3, 1>> >>, "A", << Pat(Plus(A1), 5), Pat(A2, 3), Pat(A3, 6) >>, << <<3, 0>> >>),
+  C13Cfg(C13BasePatsA, << <<3, 1>> >>, "A", << Pat(Plus(A1), 5), PatLa(A2, 3, NegLa(A1)), Pat(A3, 6) >>, << <<3, 0>> >>),
+  C13Cfg(C13BasePatsA, << <<3, 1>> >>, "A", << Pat(Plus(A1), 5), PatLa(A2, 3, PosLa(A3)), Pat(A3, 6) >>, << <<3, 0>> >>),
+  \* a transition added / retargeted / removed
+  C13Cfg(C13BasePatsA, << <<1, 1>>, <<3, 1>> >>, "A", C13BasePatsB, << <<3, 0>> >>),
+  C13Cfg(C13BasePatsA, << <<3, 0>> >>, "A", C13BasePatsB, << <<3, 0>> >>),
+  C13Cfg(C13BasePatsA, << <<3, 1>> >>, "A", C13BasePatsB, <<>>),
+  \* a mode renamed
+  C13Cfg(C13BasePatsA, << <<3, 1>> >>, "A2", C13BasePatsB, << <<3, 0>> >>),
+  \* a pattern spelled differently with the same language
+  C13Cfg(<< Pat(Alt(A1, A1), 1), Pat(Cat(A1, A2), 2), Pat(A2, 3) >>, << <<3, 1>> >>, "A", C13BasePatsB, << <<3, 0>> >>),
+  \* does not build: a syntax error; an unsupported construct in the SECOND mode (the first
+  \* mode has been compiled when the error is found) and in a lookahead
+  C13Cfg(<< Pat(A1, 1), Pat(SynErr, 2), Pat(A2, 3) >>, << <<3, 1>> >>, "A", C13BasePatsB, << <<3, 0>> >>),
+  C13Cfg(C13BasePatsA, << <<3, 1>> >>, "A", << Pat(Plus(A1), 5), Pat(Unsup("a*?"), 3), Pat(A3, 6) >>, << <<3, 0>> >>),
+  C13Cfg(C13BasePatsA, << <<3, 1>> >>, "A", << Pat(Plus(A1), 5), PatLa(A2, 3, NegLa(Unsup("\\bx"))), Pat(A3, 6) >>, << <<3, 0>> >>)
+>>)
+
+\* ---- C15: one unsupported construct planted at every node position ------------------------
+RECURSIVE Size(_), SumSizes(_, _), PlantAt(_, _, _), PlantInSeq(_, _, _, _)
+SumSizes(xs, j) == IF j > Len(xs) THEN 0 ELSE Size(xs[j]) + SumSizes(xs, j + 1)
+Size(re) == CASE re.op \in {"cat", "alt"} -> 1 + SumSizes(re.xs, 1)
+              [] re.op \in {"star", "plus", "opt", "rep"} -> 1 + Size(re.l)
+              [] OTHER -> 1
+\* replace the k-th node (pre-order, 1-based) of re by u
+PlantAt(re, k, u) ==
+  IF k = 1 THEN u
+  ELSE CASE re.op \in {"cat", "alt"} -> [re EXCEPT !.xs = PlantInSeq(re.xs, 1, k - 1, u)]
+         [] OTHER -> [re EXCEPT !.l = PlantAt(re.l, k - 1, u)]
+PlantInSeq(xs, j, k, u) ==
+  IF k <= Size(xs[j]) THEN [xs EXCEPT ![j] = PlantAt(xs[j], k, u)]
+  ELSE PlantInSeq(xs, j + 1, k - Size(xs[j]), u)
+
+\* constructs the documentation lists as unsupported, in concrete syntax
+UnsupPool == << "^", "$", "\\A", "\\z", "\\b", "\\B", "(?i)", "(?i:a)", "(?s-m:a)", "a*?", "a+?", "a??", "a{1,2}?",
+                "\\p{Greek}", "\\p{sc=Greek}", "\\pX", "\\P{Cyrillic}", "[\\p{Greek}]", "[a\\pX]", "[^\\p{sc=Latin}b]",
+                "[a&&\\p{Greek}]", "(?m)" >>
+\* host regexes built only from supported constructs (depth <= 3)
+Hosts == << A1, Cat(A1, A2), Alt(A1, A2), Star(A12), Plus(Cat(A1, A2)), Opt(Alt(A1, Eps)), Rep(A1, 1, 2),
+            Cat(Star(A1), Alt(A2, Cat(A1, A3))), Alt(Cat(A1, A2), Plus(A3)), Rep(Alt(A1, A2), 0, -1),
+            Cat(Cat(A1, Opt(A2)), Star(Alt(A3, A1))), Alt(Eps, Cat(A1, Rep(A2, 2, 2))) >>
+\* (host, position, construct) triples, flattened
+HostOff == [h \in 1..(Len(Hosts) + 1) |-> SumSizes(Hosts, 1) - SumSizes(Hosts, h)]   \* nodes before host h
+NPlantPos == SumSizes(Hosts, 1)
+HostOfPos(q) == CHOOSE h \in 1..Len(Hosts) : HostOff[h] < q /\ q <= HostOff[h + 1]
+Planted(q, u) == LET h == HostOfPos(q) IN PlantAt(Hosts[h], q - HostOff[h], Unsup(UnsupPool[u]))
+\* placements: pattern of mode 1, pattern of mode 2, lookahead in mode 1, lookahead in mode 2
+Place(re, w) ==
+  CASE w = 1 -> [modes |-> << Mode("M0", << Pat(A1, 1), Pat(re, 2) >>, <<>>) >>]
+    [] w = 2 -> [modes |-> << Mode("M0", << Pat(A1, 1) >>, << <<1, 1>> >>), Mode("M1", << Pat(re, 2), Pat(A2, 3) >>, <<>>) >>]
+    [] w = 3 -> [modes |-> << Mode("M0", << PatLa(A1, 1, PosLa(re)), Pat(A2, 2) >>, <<>>) >>]
+    [] w = 4 -> [modes |-> << Mode("M0", << Pat(A1, 1) >>, <<>>), Mode("M1", << PatLa(A2, 3, NegLa(re)) >>, <<>>) >>]
+NU == Len(UnsupPool)
+U_C15_planted == [k \in 1..(NPlantPos * NU * 4) |->
+                    Place(Planted(((k - 1) \div (NU * 4)) + 1, (((k - 1) \div 4) % NU) + 1), ((k - 1) % 4) + 1)]
+U_C15_clean == [k \in 1..(Len(Hosts) * 4) |-> Place(Hosts[((k - 1) \div 4) + 1], ((k - 1) % 4) + 1)]
+U_C15 == TLCEval(U_C15_clean \o U_C15_planted)
+
 =============================================================================
